@@ -1,8 +1,9 @@
 // Command c16 traces the three set implementations of /repo/set (unordered, stable, sorted),
 // their set algebra, Powerset and Partitions.
 //
-//	header:  <det|free> <asc|rev>        det = identity shuffle installed (All() of the unordered set in slot order)
-//	                                     asc/rev = comparator of the sorted sets (natural / reversed order of int)
+//	header:  <det|free> <asc|rev|mag|mag3|rmag>   det = identity shuffle installed (All() of the unordered set in slot order)
+//	                                     comparator of the sorted sets: asc/rev = natural / reversed order returning -1,0,1;
+//	                                     mag = a-b, mag3 = 3*(a-b), rmag = b-a (results of arbitrary magnitude)
 //	objects are numbered 0,1,2,... in creation order (every creating op appends one, par appends two)
 //	ops:
 //	  new u|s|o            -> -           New / NewStable / NewSorted
@@ -44,8 +45,15 @@ type pool struct {
 
 func newPool(dir string) *pool {
 	p := &pool{eq: generic.NewEqualFunc[int](), cmp: generic.NewCompareFunc[int]()}
-	if dir == "rev" {
+	switch dir {
+	case "rev":
 		p.cmp = generic.NewReverseCompareFunc[int]()
+	case "mag": // magnitudes: legal under CompareFunc's negative / zero / positive contract
+		p.cmp = func(a, b int) int { return a - b }
+	case "mag3":
+		p.cmp = func(a, b int) int { return 3 * (a - b) }
+	case "rmag":
+		p.cmp = func(a, b int) int { return b - a }
 	}
 	return p
 }
@@ -313,14 +321,20 @@ func battery(r int, u int) []string {
 // hist: every history of length <= depth over the mutator alphabet on universe {0,1,2},
 // for each implementation and comparator; the query battery runs on the state after each history
 // (every prefix is itself a case, so every reachable state is queried).
-func hist(w *tr.W, depth int, nalpha int) {
+var allDirs = []string{"asc", "rev", "mag", "mag3", "rmag"}
+
+func hist(w *tr.W, depth int, nalpha int, full bool) {
 	alphabet := []string{"add 0 0", "add 0 1", "add 0 2", "rem 0 0", "rem 0 1", "rem 0 2", "clr 0", "add 0 2 0", "rem 0 1 2 1"}[:nalpha]
 	for _, k := range kinds {
 		dirs := []string{"asc"}
 		if k == "o" {
-			dirs = []string{"asc", "rev"}
+			dirs = allDirs
 		}
 		for _, dir := range dirs {
+			depth := depth
+			if !full && (dir == "mag3" || dir == "rmag") {
+				depth-- // quick tier: the two extra magnitude comparators one level shallower
+			}
 			var rec func(prefix []string)
 			rec = func(prefix []string) {
 				ops := append([]string{"new " + k}, prefix...)
@@ -386,7 +400,7 @@ func algebra(w *tr.W, np int, dirs []string) {
 		for _, k0 := range kinds {
 			for _, k1 := range kinds {
 				for _, k2 := range kinds {
-					if dir == "rev" && k0 != "o" && k1 != "o" && k2 != "o" {
+					if dir != "asc" && k0 != "o" && k1 != "o" && k2 != "o" {
 						continue
 					}
 					for a := 0; a < np; a++ {
@@ -416,6 +430,9 @@ func algebra(w *tr.W, np int, dirs []string) {
 	for _, dir := range dirs {
 		for _, k0 := range kinds {
 			for _, k1 := range kinds {
+				if dir != "asc" && k0 != "o" && k1 != "o" {
+					continue
+				}
 				for a := 0; a < np; a++ {
 					for bb := 0; bb < np; bb++ {
 						ops := []string{"new " + k0, "new " + k1}
@@ -441,8 +458,8 @@ func algebra(w *tr.W, np int, dirs []string) {
 func random(w *tr.W, r *rng.R, cases int, mode string) {
 	for c := 0; c < cases; c++ {
 		dir := "asc"
-		if r.Chance(1, 3) {
-			dir = "rev"
+		if r.Chance(1, 2) {
+			dir = allDirs[r.Intn(len(allDirs))]
 		}
 		u := []int{4, 8, 16, 40, 120}[r.Intn(5)]
 		nobj := r.Range(1, 4)
@@ -521,10 +538,7 @@ func random(w *tr.W, r *rng.R, cases int, mode string) {
 // shrunk by in-place removals), then algebra and comparisons between them.
 func big(w *tr.W, r *rng.R, cases int, mode string) {
 	for c := 0; c < cases; c++ {
-		dir := "asc"
-		if r.Bool() {
-			dir = "rev"
-		}
+		dir := allDirs[r.Intn(len(allDirs))]
 		u := r.Range(200, 1200)
 		ops := []string{"new " + kinds[r.Intn(3)], "new " + kinds[r.Intn(3)], "new " + kinds[r.Intn(3)]}
 		n := r.Range(120, 420)
@@ -551,9 +565,9 @@ func big(w *tr.W, r *rng.R, cases int, mode string) {
 // power: Powerset for n <= maxPow and Partitions for n <= maxPart, on sets built with and without
 // spare capacity, the operand re-read afterwards.
 func power(w *tr.W, r *rng.R, maxPow, maxPart int, mode string, reps int) {
-	for _, dir := range []string{"asc", "rev"} {
+	for _, dir := range []string{"asc", "rev", "mag", "rmag"} {
 		for _, k := range kinds {
-			if dir == "rev" && k != "o" {
+			if dir != "asc" && k != "o" {
 				continue
 			}
 			for n := 0; n <= maxPow; n++ {
@@ -624,17 +638,19 @@ func main() {
 	switch *mode {
 	case "hist":
 		if thorough {
-			hist(w, 4, 9)
-			hist(w, 5, 7)
+			hist(w, 4, 9, true)
+			hist(w, 5, 7, true)
 		} else {
-			hist(w, 4, 9)
+			hist(w, 4, 9, false)
 		}
 	case "algebra":
 		if thorough {
 			algebra(w, len(preps), []string{"asc", "rev"})
+			algebra(w, 10, []string{"mag", "mag3", "rmag"})
 		} else {
 			algebra(w, 10, []string{"asc"})
-			algebra(w, 4, []string{"rev"})
+			algebra(w, 4, []string{"rev", "mag"})
+			algebra(w, 3, []string{"mag3", "rmag"})
 		}
 	case "random":
 		r := rng.FromEnv(16)
